@@ -1,0 +1,35 @@
+//go:build verif
+
+package directive
+
+// Read-only accessors for the verification harness (build tag verif).
+
+// VerifKeywordBegin returns the byte index of the directive's keyword.
+func (d Directive) VerifKeywordBegin() uint {
+	return uint(d.keywordCoords.begin)
+}
+
+// VerifKeywordFile returns the name of the file holding the keyword.
+func (d Directive) VerifKeywordFile() string {
+	if d.keywordCoords.file == nil {
+		return ""
+	}
+	return d.keywordCoords.file.Name()
+}
+
+// VerifNamedParameters returns a copy of the named parameters.
+func (d Directive) VerifNamedParameters() map[string]string {
+	m := make(map[string]string, len(d.namedParameters))
+	for k, v := range d.namedParameters {
+		m[k] = v
+	}
+	return m
+}
+
+// VerifBody returns the body bytes ("" when there is no body).
+func (d Directive) VerifBody() string {
+	if !d.BodyCoords.IsSet() {
+		return ""
+	}
+	return d.BodyCoords.Read().String()
+}
